@@ -4,6 +4,7 @@ mod util;
 mod tagcases;
 mod cmdcases;
 mod conncases;
+mod framecases;
 
 use std::io::{BufRead, Write};
 
@@ -34,6 +35,7 @@ fn dispatch(toks: &[&str]) -> String {
         "tag_list" | "tag_parse" | "tag_cmp" | "sub" | "sub_list" | "tag_rt" => tagcases::run(toks),
         "cmd_build" | "cmd_args" | "cmd_list" | "escape" => cmdcases::run(toks),
         "recv" | "conn" => conncases::run(toks),
+        "frame" | "resp" => framecases::run(toks),
         other => format!("unknown-kind {}", other),
     }
 }
